@@ -142,6 +142,7 @@ def user_text():
             "placeholder inside a string literal": ('10 A$="S: STRING<<>>":B$=STRING$(3,"x")\n', [], "S: STRING<<>>"),
             "DATA items that look like calls": ('10 DATA RUN ecb_play,"RUN ecb_hdraw"\n20 READ A$,B$\n', ["ecb_play", "ecb_hdraw"], "RUN ecb_play"),
             "RUN line with an empty literal": ('10 C=VAL(""):PLAY ""\n', [], None),
+            "form feed and other separators inside a literal": ('10 PRINT "PAGE 1\x0cprocedure eject\x0c";\n20 SOUND 1,2\n30 DATA "A\x0bB\x1cC\x85D"\n', ["eject"], 'PAGE 1\x0cprocedure eject\x0c'),
             "comment with an odd quote": ('10 B$=STRING$(3,"x")\n20 REM it"s\n', [], 'it"s'),
             "comment that mentions a call": ('10 REM RUN ecb_play LATER\n', ["ecb_play"], "RUN ecb_play LATER"),
         }
@@ -167,5 +168,34 @@ def user_text():
     return guarded("user-text", run)
 
 
+def line_splitting():
+    """the bank splits its input at CR and LF only: every other character of a procedure comes through unchanged"""
+    def run():
+        body = 'print "a\x0bb\x0cc\x1cd\x1de\x1ef\x85g\u2028h\u2029i"'
+        bank = ProcedureBank()
+        bank.add_from_str("procedure p\n" + body + "\nrun q\nprocedure q\nend\n")
+        out = bank.get_procedure_and_dependencies("p")
+        return [ob("bank/splits lines at CR and LF only", body in out and re.findall(r"(?m)^procedure (\w+)", out) == ["q", "p"], "procedure text unchanged, headers [q, p]", out)]
+    return guarded("bank/lines", run)
+
+
+def history():
+    """a bundle depends on the program alone: after another program was converted under the same procedure name, the
+    bundle is still exactly the closure of *this* program's calls"""
+    def run():
+        sig = ecbsig.parse()
+        edges = {p: {c for c, _ in v["runs"]} for p, v in sig.items()}
+        big = '10 PLAY "C":A$=STRING$(3,"x"):HSCREEN 2:X=VAL("1")\n'
+        small = "10 CLS\n"
+        kw = dict(output_dependencies=True, procname="main")
+        convert(big, **kw)
+        out = convert(small, **kw)
+        heads = re.findall(r"(?mi)^procedure (\w+)", out)
+        direct = {c for c in re.findall(r"(?i)\brun\s+(\w+)", convert(small, add_standard_prefix=True)) if c in sig}
+        want = sorted(set().union(*[reach(edges, d) for d in direct]) & set(sig)) + ["main"]
+        return [ob("bundle/independent of earlier conversions", heads == want, want, heads, bounded="one sequence of two conversions under the same procedure name")]
+    return guarded("bundle/history", run)
+
+
 def obligations():
-    return small_graphs() + real_library() + regex_contracts() + user_text()
+    return small_graphs() + real_library() + regex_contracts() + user_text() + line_splitting() + history()
